@@ -292,8 +292,20 @@ pub fn run_c05(ctx: &mut Ctx) {
     report_sweep::<f32>(ctx, Kind::Avx, &rep, 256, &mut item);
     report_sweep::<f64>(ctx, Kind::Avx, &rep, 256, &mut item);
     // (c) operation counts through the automatic planner with a counting element type (=> portable code)
-    let ops = lens_upto(n_ops, s_ops);
+    let mut ops = lens_upto(n_ops, s_ops);
+    // safe primes (n = 2q+1) across the octaves up to 2^17: chains of prime-length reductions are where the work bound is tightest
+    let sp: Vec<usize> = [(1u64 << 10, 1u64 << 11), (1 << 12, 1 << 13), (1 << 14, 1 << 15), (1 << 15, 1 << 16), (1 << 16, 1 << 17)]
+        .iter()
+        .flat_map(|&(lo, hi)| crate::util::safe_primes(lo, hi).into_iter().take(if !ctx.quick() { 200 } else if lo >= (1 << 16) { 8 } else { 4 }))
+        .map(|x| x as usize)
+        .collect();
+    let extra: Vec<usize> = sp.iter().copied().filter(|x| !ops.contains(x)).collect();
+    ops.extend(extra);
     ops_sweep(ctx, &ops, 64, &mut item);
+    for kind in ALL_KINDS {
+        built_sweep::<f32>(ctx, kind, &sp, 8, &mut item);
+        built_sweep::<f64>(ctx, kind, &sp, 8, &mut item);
+    }
 }
 
 #[allow(dead_code)]
